@@ -872,6 +872,12 @@ func (m *endpointManager) resolveWorkloadEndpoints() {
 					for sId, sWorkload := range m.shadowedWlEndpoints {
 						logCxt.Infof("Old workload %v", oldWorkload)
 						logCxt.Infof("Shadowed workload %v", sWorkload)
+						if _, pending := m.pendingWlEpUpdates[sId]; pending {
+							// A newer update or removal of this endpoint is already queued in
+							// this batch; it will be resolved from that, don't overwrite it
+							// with the stale shadowed copy.
+							continue
+						}
 						if sWorkload.Name == oldWorkload.Name {
 							if bestShadowedId.EndpointId == "" || wlIdsAscending(&sId, &bestShadowedId) {
 								bestShadowedId = sId
